@@ -37,6 +37,8 @@ OBLIGATIONS = [
     "Grog.C16.makefile_undecodable_annotation_is_error",
     "Grog.C16.makefile_annotated_non_rule_is_error",
     "Grog.C16.starlark_wrong_type_is_error",
+    "Grog.C16.enrich_ok_valid_names",
+    "Grog.C16.loaded_labels_round_trip",
     "Grog.C16.merge_order_independent",
     "Grog.C16.load_ok_iff_labels_distinct",
     "Grog.C16.makefile_panic_witness",
@@ -376,11 +378,28 @@ def cross_format_part(ctx, tabs, rng, n, scratch):
     stats = ctx.coverage.setdefault("cross_format", {"definitions": 0, "loaded_ok": 0, "load_errors": 0, "makefile_renderings": 0})
     distinct = set()
     cases, ireqs = [], []
-    for case in range(n):
+    # names that cannot be written as a label, as target and as alias name: every format (and the model) must reject them;
+    # names at the edge that are fine must load everywhere
+    defs = []
+    for nm in G.BAD_NAMES + ["..", "-", "_", ".a", "a.", "x" * 70, "all", "A9", "a-b_c.d"]:
+        for kind in ("target", "alias"):
+            mk = kind == "target" and nm != "" and rng.random() < 0.5
+            base_t = G.gen_target(rng, "base", ["base"], mk=mk, faults=False)
+            dto = {"targets": [base_t], "aliases": [], "default_platforms": None}
+            if kind == "target":
+                t2 = G.gen_target(rng, "goal2", ["base"], mk=mk, faults=False)
+                t2["name"] = nm
+                dto["targets"].append(t2)
+            else:
+                dto["aliases"].append({"name": nm, "actual": ":base"})
+            defs.append((mk, dto))
+    for _ in range(n):
         mk = rng.random() < 0.4
         dto = G.gen_package(rng, mk=mk, faults=rng.random() < 0.35)
         if not mk and rng.random() < 0.15:
             dto["default_platforms"] = rng.choice([[], ["linux/amd64"]])
+        defs.append((mk, dto))
+    for case, (mk, dto) in enumerate(defs):
         d = rng.choice(G.PKGS)
         fmts = [f for f in FORMATS if (f != "Makefile" or mk) and (f != "BUILD.star" or dto["default_platforms"] is None)]
         if G.has_null(dto):
@@ -397,6 +416,26 @@ def cross_format_part(ctx, tabs, rng, n, scratch):
         return False
     mfs = model_files_batch(ctx, tabs, [([(d, fmts[0], per[0][1], dto)], per[0][2]) for dto, d, mk, fmts, per in cases], scratch)
     mos = ctx.model([{"op": "loader.graph", "files": mf} for mf in mfs])
+    # oracle without the model: every label of a loaded package must parse back to itself when printed (`//pkg:name`)
+    seen_labels = {}
+    pos = 0
+    for ci, (dto, d, mk, fmts, per) in enumerate(cases):
+        for r in io[pos:pos + len(fmts)]:
+            if isinstance(r, dict) and not r.get("err") and "packages" in r:
+                for pk in r["packages"]:
+                    for nd in pk["targets"] + pk["aliases"]:
+                        seen_labels.setdefault(tuple(nd["label"]), ci)
+        pos += len(fmts)
+    labs = list(seen_labels)
+    if labs:
+        back = ctx.impl([{"op": "label.parse", "cur": "", "s": "//" + pkg_ + ":" + nm_} for pkg_, nm_ in labs])
+        for (pkg_, nm_), b in zip(labs, back):
+            if not b.get("ok") or b["label"] != {"pkg": pkg_, "name": nm_}:
+                dto, d, mk, fmts, per = cases[seen_labels[(pkg_, nm_)]]
+                ctx.violation(f"a package loads with the label //{pkg_}:{nm_}, which grog's own label parser does not accept back",
+                              {"kind": "oracle", "oracle": "labels of loaded packages print and re-parse", "dto": dto, "pkg": d, "label": [pkg_, nm_],
+                               "texts": {per[0][0]: per[0][1]}, "reparse": b}, signature="loaded-label-not-parsable")
+    ctx.coverage["loaded_labels_reparsed"] = len(labs)
     pos = 0
     for case, ((dto, d, mk, fmts, per), mo) in enumerate(zip(cases, mos)):
         rs = io[pos:pos + len(fmts)]
